@@ -60,7 +60,7 @@ def gen_case(rng, spec):
     fs = "".join(rng.choice(alpha) for _ in range(rng.randint(1, 3)))
     # grammar with multi-character terminals
     terms = sorted({rng.choice(alpha) for _ in range(2)} | {rng.choice(alpha) + rng.choice(alpha)} | {alpha[0]})
-    g = GG.gen_grammar(rng, max_nt=3, max_t=1, max_rules=7)
+    g = GG.gen_grammar(rng, max_nt=3, max_t=1, max_rules=7, vocab="chars")
     # substitute the generated single terminal 'a' by random terminals from `terms`
     rules = []
     for w, h, b in g["rules"]:
